@@ -97,6 +97,17 @@ def install(eng, fs, environ, files):
 
 def h_conf(eng, case):
     import ndn.client_conf as cc
+    if case.get('warm'):
+        # an earlier read in the same process saw other file contents at the same paths: nothing of it may survive
+        wtext = 'transport=tcp://9.9.9.9:9\npib=pib-sqlite3:/warm/pib\ntpm=tpm-file:/warm/tpm\n'
+        wfs = FS(eng, {p: True for p in CAND + ['/warm/pib', '/warm/tpm']})
+        wfs.known.update({'/run/nfd/nfd.sock': True})
+        install(eng, wfs, {}, {p: wtext for p in CAND})
+        try:
+            cc.read_client_conf()
+        except Exception as e:
+            eng.fail('read-no-error', exc_sig(e), repr(e)[:120])
+            return
     fs = FS(eng)
     # which file exists first: decided through fs.exists by the code itself; contents by choice
     sel = {k: eng.choice(len(v), 'file.' + k) for k, v in FILE_VALUES.items()}
@@ -108,7 +119,7 @@ def h_conf(eng, case):
     text = '\n'.join(lines) + '\n'
     files = {p: text for p in CAND}
     environ = {}
-    esel = {k: eng.choice(len(v), 'env.' + k) for k, v in ENV_VALUES.items()}
+    esel = {k: (0 if case.get('warm') else eng.choice(len(v), 'env.' + k)) for k, v in ENV_VALUES.items()}
     for k, v in ENV_VALUES.items():
         if v[esel[k]] is not None:
             environ['NDN_CLIENT_' + k.upper()] = v[esel[k]]
@@ -227,7 +238,7 @@ HARNESSES = {'conf': h_conf, 'face': h_face}
 
 
 def cases(tier, seed):
-    cs = [('conf', {}, {'weight': 100, 'split_depth': 6})]
+    cs = [('conf', {}, {'weight': 100, 'split_depth': 6}), ('conf', {'warm': True}, {'weight': 30, 'split_depth': 5})]
     for i in range(len(URIS)):
         cs.append(('face', {'i': i}))
     return cs
